@@ -122,7 +122,7 @@ def check_case(ctx, c):
     if exp[1] is not None and got[1] != exp[1]:
         viol("column-count", "transform returned %s columns, the fitted column space has %d" % (got[1], exp[1]), {"shape": got})
         return
-    tol = max(z.tol, 1e-9)
+    tol = zoo.float_tol(c, est, max(z.tol, 1e-9))
     # ------------------------------------------------ row-wise estimators: order, unseen-is-ignored, probes
     if z.rowwise:
         rows = zoo.as_rows(out)
